@@ -58,6 +58,9 @@ def step' (cd : Code) (line : String) : Code × String :=
   | ["code", "fixed"] => (.fixed, "ok")
   | ["code", "orig-debug"] => (.orig false, "ok")
   | ["code", "orig-release"] => (.orig true, "ok")
+  | ["wake", w] => (cd, match w.toNat? with
+      | some w => if w < 4294967296 then (if needsWakeup w then "w1" else "w0") else "bad-op"
+      | none => "bad-op")
   | toks => (cd, runCase cd toks)
 
 def main : IO Unit := Drv.run step' Code.fixed
